@@ -206,6 +206,9 @@ func (i *k8sInst) render(name string, o *k8sObj) *v1alpha4.RuleSet {
 		Spec: v1alpha4.RuleSetSpec{AuthClassName: x(o.match, kAuthClass, "other")},
 	}
 
+	// the status is remote controlled: absent, well-formed and malformed values (a function of the resource version)
+	rs.Status.ActiveIn = []string{"", "1/1", "garbage", "3"}[int(o.rv)%4]
+
 	if o.content != kEmptyRules {
 		for _, r := range parsedRules[o.content] {
 			rs.Spec.Rules = append(rs.Spec.Rules, *r.DeepCopy())
